@@ -205,15 +205,20 @@ class PathFormSpec(TreeSpec):
     does not provide the name - and the entry '/' which is *not* the current directory (F25)"""
     title = 'directory trees x dotted names x spelling of the search path entry'
 
-    def __init__(self, name, light=False):
-        TreeSpec.__init__(self, name, 1)
+    def __init__(self, name, light=False, depth=1):
+        TreeSpec.__init__(self, name, depth)
         self.light = light
-        self.rule = ('all trees of depth 1 over names %r%s x %d entry forms %r x all dotted names of <= %d components over %r; expected = '
+        self.rule = ('all trees of depth %d over names %r%s x %d entry forms %r x all dotted names of <= %d components over %r; expected = '
                      'importlib FileFinder on the directory the entry denotes; non-trivial = as for the tree specs' % (
-                         TOP_NAMES, ' whose second name is absent / a module' if light else '', len(PATH_FORMS), PATH_FORMS,
+                         depth, TOP_NAMES, ' whose second name is absent / a module' if light else
+                         (' (second name absent / module / empty package)' if depth == 2 else ''), len(PATH_FORMS), PATH_FORMS,
                          2 if light else 3, LOOKUP))
 
     def histories(self, stats):
+        if self.depth == 2:
+            for h in TreeSpec.histories(self, stats):
+                yield h
+            return
         for t in gen_dir(1):
             if self.light and t['b_c'] not in (None, ('mod',)):
                 continue
@@ -480,5 +485,5 @@ class EditSpec(Spec):
 
 def specs(tier):
     if tier == 'thorough':
-        return [TreeSpec('trees-depth1', 1), TreeSpec('trees-depth2-wide', 2, wide=True), OddNameSpec('odd-names'), ShadowSpec(), EditSpec('edits<=3', 3), PathFormSpec('path-forms')]
+        return [TreeSpec('trees-depth1', 1), TreeSpec('trees-depth2-wide', 2, wide=True), OddNameSpec('odd-names'), ShadowSpec(), EditSpec('edits<=3', 3), PathFormSpec('path-forms'), PathFormSpec('path-forms-depth2', depth=2)]
     return [TreeSpec('trees-depth1', 1), TreeSpec('trees-depth2', 2), OddNameSpec('odd-names'), ShadowSpec(), EditSpec('edits<=2', 2), PathFormSpec('path-forms')]
